@@ -1294,9 +1294,143 @@ def _fixed_part(ctx, cases):
         judge(ctx, case, minimise_new=False)
 
 
+# ---------------------------------------------------------------------------
+# packed-refs cache of a long-lived handle against a concurrent rewrite (schedule search)
+
+
+def _race_template(path):
+    from dulwich.repo import Repo
+
+    from ..gen import repos
+
+    info = repos.init_repo(path, "loose", "packed")
+    r = Repo(path)
+    try:
+        ids = info["commits"]
+        r.refs[b"refs/heads/topic"] = ids[1]
+        r.refs[b"refs/heads/main2"] = ids[2]
+        r.refs.pack_refs(all=True)
+    finally:
+        r.close()
+    return info
+
+
+RACE_WRITERS = {
+    # what the other actor does to packed-refs while the long-lived handle is reading it
+    "delete+move+pack": lambda r, ids: (r.refs.remove_if_equals(b"refs/heads/topic", None), r.refs.__setitem__(b"refs/heads/main2", ids[3]), r.refs.pack_refs(all=True)),
+    "delete-packed": lambda r, ids: r.refs.remove_if_equals(b"refs/heads/topic", None),
+    "add_packed_refs": lambda r, ids: r.refs.add_packed_refs({b"refs/heads/main2": ids[4], b"refs/heads/topic": None}),
+}
+RACE_READERS = {
+    "as_dict": lambda r: r.refs.as_dict(),
+    "get_packed_refs": lambda r: dict(r.refs.get_packed_refs()),
+    "getitem": lambda r: r.refs[b"refs/heads/main2"],
+    "get_peeled": lambda r: r.refs.get_peeled(b"refs/heads/main2"),
+}
+
+
+def run_cache_race(ctx, template, info, reader, writer, strategy, check="refs-race"):
+    import gc
+    import shutil
+    import warnings
+
+    from dulwich.repo import Repo
+
+    from ..interpose import Interposer, Scheduler
+
+    work = ctx.scratch.new("race")
+    repo = os.path.join(work, "repo")
+    shutil.copytree(template, repo, symlinks=True)
+    gitdir = os.path.join(repo, ".git")
+    watch = (os.path.join(gitdir, "packed-refs"), os.path.join(gitdir, "refs"))
+
+    def visible(ev):
+        return ev.op == "start" or any(q and q.startswith(watch) for q in (ev.path, ev.path2))
+
+    sched = Scheduler(strategy, visible=visible)
+    ip = Interposer(work, sched)
+    ids = info["commits"]
+    case = dict(reader=reader, writer=writer)
+    with warnings.catch_warnings():
+        warnings.simplefilter("ignore")
+        long_lived = Repo(repo)  # opened (and its cache possibly warm) before the race
+        try:
+            if reader != "get_packed_refs":
+                long_lived.refs.get_packed_refs() if ctx.seed % 2 else None
+
+            def a():
+                try:
+                    RACE_READERS[reader](long_lived)
+                except KeyError:
+                    pass
+
+            def b():
+                other = Repo(repo)
+                try:
+                    RACE_WRITERS[writer](other, ids)
+                finally:
+                    other.close()
+
+            ip.install()
+            try:
+                results = sched.run(ip, [("A", a), ("B", b)])
+            finally:
+                ip.uninstall()
+            for n, r in results.items():
+                if r[0] != "ok":
+                    raise HarnessError(f"race actor {n} crashed: {r}")
+            # quiescent now: whatever the handle cached during the race, its answers must be those of a fresh handle
+            fresh = Repo(repo)
+            try:
+                for q, fn in (("as_dict", lambda r: r.refs.as_dict()), ("packed", lambda r: dict(r.refs.get_packed_refs())),
+                              ("keys", lambda r: sorted(r.refs.keys())), ("contains-topic", lambda r: b"refs/heads/topic" in r.refs)):
+                    got, want = outcome(lambda: fn(long_lived)), outcome(lambda: fn(fresh))
+                    if got != want:
+                        ctx.fail(f"C14:refs-race:{reader}|{writer}:stale-forever:{q}",
+                                 f"after {reader} on a long-lived handle raced with {writer} by another handle and both finished, {q} through the long-lived handle is "
+                                 f"{_short(got)} but a freshly opened repository says {_short(want)}", check, dict(case, schedule=[c for _, c in sched.decisions]))
+                        break
+            finally:
+                fresh.close()
+        finally:
+            long_lived.close()
+    gc.collect()
+    trace = [ev for ev in ip.trace if ev.op != "start" and visible(ev)]
+    first, last = {}, {}
+    for i, ev in enumerate(trace):
+        first.setdefault(ev.actor, i)
+        last[ev.actor] = i
+    interleaved = any(first[x] < i < last[x] for i, ev in enumerate(trace) for x in first if x != ev.actor)
+    sched_list = [c for _, c in sched.decisions]
+    shutil.rmtree(work, ignore_errors=True)
+    return interleaved, sched_list
+
+
+def _part_refs_race(ctx, item):
+    import shutil
+
+    from ..interpose import DFSExplorer
+
+    reader, writer, max_runs = item
+    tdir = ctx.scratch.new("racetmpl")
+    template = os.path.join(tdir, "repo")
+    info = _race_template(template)
+    ex = DFSExplorer(1, max_runs=max_runs)
+    n = 0
+    while ex.more():
+        inter, sl = run_cache_race(ctx, template, info, reader, writer, ex.next_run())
+        ex.done_run()
+        n += 1
+        ctx.case(("refs-race", reader, writer, tuple(sl)), nontrivial=inter, labels=("refs-race", f"refs-race:{reader}|{writer}") + (("refs-race-interleaved",) if inter else ()),
+                 sample=dict(reader=reader, writer=writer, schedule=sl) if inter and n == 5 else None)
+    ctx.label("refs-race-exhaustive(<=1 preemption)" if ex.exhausted else "refs-race-capped")
+    shutil.rmtree(tdir, ignore_errors=True)
+
+
 def run(ctx):
     selftest(ctx)
     ctx.note("git_version", cgit.version())
+    ctx.parallel(_part_refs_race, [(rd, wr, ctx.scale(150, 4000)) for rd in sorted(RACE_READERS) for wr in sorted(RACE_WRITERS)])
     ctx.parallel(_fixed_part, [[c] for c in FIXED])
     per = ctx.scale(75, 2000)
     ctx.parallel(_part, [per] * 16)
@@ -1306,6 +1440,10 @@ def run(ctx):
 
 
 def replay(ctx, check, case):
+    if check == "refs-race":
+        # pinned schedules go stale with the code: explore the pair
+        _part_refs_race(ctx, (case["reader"], case["writer"], 400))
+        return
     if check != "case":
         raise HarnessError(f"unknown check {check!r}")
     focus = case.get("focus")  # pinned known findings name the one bucket they are about
